@@ -71,7 +71,7 @@ func structFieldName(t types.Type, idx int) (owner, field string) {
 	}
 	owner = typeLabel(t)
 	if st, ok := t.Underlying().(*types.Struct); ok && idx < st.NumFields() {
-		field = st.Field(idx).Name()
+		field = fieldNameAt(t, idx)
 	}
 	return
 }
